@@ -35,7 +35,7 @@ ASSUMES = P.ASSUMES_PIPELINE + ["alpha is a finite double with 0 < alpha < 1"]
 OUTSIDE = ["n above the enumerated bound (part A)", "alphas other than {0.5, 0.7} and more than 9 units in the end-to-end gate (part B)",
            "the bootstrap estimator's run beyond its gate (its numeric core is stubbed elsewhere)"]
 BOUNDS = {"quick": "part A: every double alpha in (0,1) x n in 1..16,20,24,32,40 (NP), n in 7..200 (GA, concrete); part B: NP alphas {0.5},{0.7},"
-                   "{0.5,0.7} with 2..8 modelled reporting units, GA with 5..8, BS gate with 9..10; duplicate-id rejection",
+                   "{0.5,0.7} with 2..8 modelled reporting units, GA with 5..8, BS with 9..11; duplicate-id rejection",
           "thorough": "part A: n in 1..200 plus ladder 250..5000"}
 OPTS = {"quick": dict(case_timeout_s=900, solver_timeout_ms=600000), "thorough": dict(case_timeout_s=3400, solver_timeout_ms=1800000)}
 
@@ -57,6 +57,8 @@ def cases(tier):
                             alphas=alphas, n=n, need=need, weight=n))
     for n in range(5, 9):
         out.append(dict(name="gate_ga_n%d" % n, kind="gate", pi="gaussian", alphas=[0.7], n=n, need=7, weight=n))
+    for n in (9, 10, 11):
+        out.append(dict(name="gate_bs_n%d" % n, kind="gate_bs", pi="bootstrap", alphas=[0.9], n=n, need=10, weight=n))
     out.append(dict(name="gate_free_np", kind="gate_free", pi="nonparametric", alphas=[0.5], weight=30))
     out.append(dict(name="duplicate_ids", kind="dup", pi="nonparametric", alphas=[0.5], weight=5))
     return out
@@ -178,7 +180,9 @@ def run(ctx, case):
                 bad.append(n)
         obl.append(("gaussian split leaves >=1 training and >=1 calibration unit for every n in bound", not bad))
         return obl, {}
-    if kind in ("gate", "gate_bs"):
+    if kind == "gate_bs":
+        return run_gate_bs(ctx, case)
+    if kind == "gate":
         return run_gate(ctx, case)
     if kind == "gate_free":
         return run_gate_free(ctx, case)
@@ -209,6 +213,23 @@ def run_gate(ctx, case):
         extra = dict(features=["baseline_normalized_margin"], config_features=[], bs_stub=True)
     out, r = _client_outcome(ctx, case, units, **extra)
     obl = [("gate: %d reporting units, %d needed -> %s" % (n, need, "estimate" if n >= need else "dedicated error"),
+            out == ("completed" if n >= need else "not-enough"))]
+    return obl, (P.tables_out(r.res) if r is not None else {})
+
+
+def run_gate_bs(ctx, case):
+    """bootstrap estimator: 10 reporting units needed whatever the level"""
+    from elexmodel.client import ModelNotEnoughSubunitsException
+    from . import bs as BS
+
+    n, need = case["n"], case["need"]
+    c = dict(case, units=BS.margin_units(n, 1, 1), B=2, aggregates=["postal_code", "unit"])
+    try:
+        r = BS.run_bs_client(ctx, c)
+        out = "completed"
+    except ModelNotEnoughSubunitsException:
+        out, r = "not-enough", None
+    obl = [("gate (bootstrap): %d reporting units, %d needed -> %s" % (n, need, "estimate" if n >= need else "dedicated error"),
             out == ("completed" if n >= need else "not-enough"))]
     return obl, (P.tables_out(r.res) if r is not None else {})
 
